@@ -88,6 +88,20 @@ static void dist_open(void)
 #define RE(...) (fprintf(f_c, __VA_ARGS__), fputc('\n', f_c))
 
 
+/* S oracle for C07: a thread votes for termination (not because of the termination time) only if every LP it
+ * hosts currently satisfies its predicate - on the unchanged code a non-zero termination_t means the predicate
+ * held at the LP's last processed event and that event has not been undone since. */
+static unsigned long s_vote_false_pred, n_votes;
+static void vote_oracle(uint64_t gvt_bits)
+{
+	n_votes++;
+	if(bits_dbl(gvt_bits) >= global_config.termination_time)
+		return;
+	for(uint64_t i = lid_thread_first; i < lid_thread_end; ++i)
+		if(!gm_can_end(i, lps[i].state_pointer))
+			s_vote_false_pred++;
+}
+
 /* ------------------------------------------------------------------ distributed mode
  * Several MPI ranks, each with its own scheduler; cross-rank timing is real. The trace is reduced to
  * what the sequential specification can judge: the committed stream of every LP (entries released by
@@ -185,6 +199,9 @@ static void dist_trace(unsigned kind, uint64_t a, uint64_t b, uint64_t c)
 		case VK_DRAIN_STAGE:
 			if(r < VS_MAXT)
 				drain_stage[r] = (unsigned)a;
+			break;
+		case VK_TERM_VOTE:
+			vote_oracle(a);
 			break;
 		default:
 			break;
@@ -350,8 +367,23 @@ void verif_trace(unsigned kind, uint64_t a, uint64_t b, uint64_t c)
 			RE("gvt %u tq=%llu", r, (unsigned long long)tq_of(bits_dbl(a)));
 			break;
 		case VK_TERM_VOTE:
+			vote_oracle(a);
 			OP("vote %u %llu %llu", r, (unsigned long long)tq_of(bits_dbl(a)), (unsigned long long)b);
-			RE("vote %u tq=%llu", r, (unsigned long long)tq_of(bits_dbl(a)));
+			RE("vote %u tq=%llu lte=%llu", r, (unsigned long long)tq_of(bits_dbl(a)), (unsigned long long)b);
+			break;
+		case VK_TERM_INIT:
+			OP("terminit %u %llu", r, (unsigned long long)a);
+			RE("terminit lp=%llu term=%llu lte=%llu", (unsigned long long)a, (unsigned long long)b, (unsigned long long)c);
+			break;
+		case VK_TERM_PROCESS:
+			OP("termproc %u %llu", r, (unsigned long long)a);
+			RE("termproc lp=%llu t=%llu lte=%llu", (unsigned long long)a, (unsigned long long)tq_of(bits_dbl(b)),
+			    (unsigned long long)c);
+			break;
+		case VK_TERM_ROLLBACK:
+			OP("termrb %u %llu", r, (unsigned long long)a);
+			RE("termrb lp=%llu old=%llu keep=%llu", (unsigned long long)a, (unsigned long long)tq_of(bits_dbl(b)),
+			    (unsigned long long)c);
 			break;
 		case VK_FINI_ENTRY: {
 			const void *p = (const void *)(uintptr_t)(b & ~(uint64_t)3);
@@ -433,10 +465,11 @@ static void print_stats(const char *outcome)
 	printf("{\"outcome\":\"%s\",\"lines\":%lu,\"dispatch\":%lu,\"frozen_dispatch\":%lu,\"fwd\":%lu,\"rollbacks\":%lu,"
 	       "\"silent\":%lu,\"antis\":%lu,\"gvt\":%lu,\"ckpt\":%lu,\"fossil\":%lu,\"msgs\":%llu,\"steps\":%llu,"
 	       "\"switches\":%llu,\"s_below_gvt\":%lu,\"s_rb_mismatch\":%lu,\"s_double_free\":%lu,\"s_rb_checked\":%lu,"
-	       "\"s_rb_after_fossil\":%lu,\"s_gvt_decrease\":%lu,\"s_gvt_disagree\":%lu,\"allocs\":%lu,\"frees\":%lu",
+	       "\"s_rb_after_fossil\":%lu,\"s_gvt_decrease\":%lu,\"s_gvt_disagree\":%lu,\"allocs\":%lu,\"frees\":%lu,\"votes\":%lu,\"s_vote_false_pred\":%lu,\"antis_remote\":%lu",
 	    outcome, n_lines, n_dispatch, n_frozen_dispatch, n_fwd, n_rollbacks, n_silent, n_antis, n_gvt, n_ckpt, n_fossil,
 	    (unsigned long long)next_ord, (unsigned long long)vs_steps, (unsigned long long)vs_switches, s_below_gvt,
-	    s_rb_mismatch, s_double_free, s_rb_checked, s_rb_after_fossil, s_gvt_decrease, s_gvt_disagree, n_alloc, n_free);
+	    s_rb_mismatch, s_double_free, s_rb_checked, s_rb_after_fossil, s_gvt_decrease, s_gvt_disagree, n_alloc, n_free,
+	    n_votes, s_vote_false_pred, n_ev[39]);
 	printf(",\"points\":[");
 	for(int t = 0; t < vs_registered && t < VS_MAXT; ++t)
 		printf("%s{\"last\":%u,\"stage\":%u}", t ? "," : "", vs_point[t], drain_stage[t]);
